@@ -21,6 +21,8 @@ from world import ledger as W
 from world.ledger import key, view_at, seal, mine_honest, make_tx, reward_tx, Unminable
 
 N_KEYS = 12
+# a legal output may pay to 64 bytes that are not a point on the curve; nobody can ever spend it
+NONCURVE = SECP256k1PublicKey(b'x' * 64)
 HARD_TARGET = (1 << 252).to_bytes(32, 'big')
 
 _ORIG = {}
@@ -205,7 +207,7 @@ class LedgerSim:
                     v = min(v, left - (len(outs_spec) - 1 - n))
                 if v <= 0:
                     continue
-                outs.append((v, key(kk % N_KEYS)))
+                outs.append((v, NONCURVE if kk == 99 else key(kk % N_KEYS)))
                 left -= v
             if not outs:
                 continue
